@@ -11,6 +11,63 @@ Model does not mirror, however rarely the new path is taken. The listing ignores
 constants, comments and formatting. -/
 namespace TinyFlux.Model.CallGraph
 
+/-- storages.Storage: function ↦ its calls in the order they are written, with control-structure markers -/
+def order_storages_Storage : List (String × List String) := [
+  ("can_append", ["<return>"]),
+  ("can_read", ["<return>"]),
+  ("can_write", ["<return>"]),
+  ("__iter__", []),
+  ("__len__", []),
+  ("append", []),
+  ("close", []),
+  ("read", ["list", "self._deserialize_storage_item", "iter", "<return>"]),
+  ("reset", []),
+  ("_deserialize_measurement", []),
+  ("_deserialize_timestamp", []),
+  ("_deserialize_storage_item", []),
+  ("_serialize_point", []),
+  ("_swap_temp_with_primary", []),
+  ("_write", [])]
+
+/-- storages.CSVStorage: function ↦ its calls in the order they are written, with control-structure markers -/
+def order_storages_CSVStorage : List (String × List String) := [
+  ("__init__", ["super().__init__", "super", "any", "<if>", "create_file", "<end>", "open", "self._check_for_existing_data"]),
+  ("can_append", ["<if>", "<raise>", "<end>", "<return>"]),
+  ("can_read", ["<if>", "<raise>", "<end>", "<return>"]),
+  ("can_write", ["<if>", "<raise>", "<end>", "<return>"]),
+  ("__iter__", ["self._handle.seek", "csv.reader", "<return>"]),
+  ("__len__", ["self._handle.seek", "sum", "csv.reader", "<return>"]),
+  ("append", ["<if>", "<if>", "<raise>", "<else>", "<end>", "<else>", "<end>", "_.seek", "csv.writer", "<for>", "_.writerow", "<end>", "<if>", "_.flush", "os.fsync", "_.fileno", "_.truncate", "<end>", "<return>"]),
+  ("close", ["self._handle.close", "<return>"]),
+  ("read", ["super().read", "super", "<return>"]),
+  ("reset", ["self._write", "<return>"]),
+  ("_check_for_existing_data", ["self._handle.seek", "self._handle.tell", "<if>", "<end>", "<return>"]),
+  ("_cleanup_temp_storage", ["<if>", "<try>", "self._temp_handle.close", "<finally>", "os.path.exists", "<if>", "os.remove", "<end>", "<end>", "<end>", "<return>"]),
+  ("_deserialize_measurement", ["<return>"]),
+  ("_deserialize_storage_item", ["Point()._deserialize_from_list", "Point", "<return>"]),
+  ("_deserialize_timestamp", ["datetime.fromisoformat", "<return>"]),
+  ("_init_temp_storage", ["NamedTemporaryFile", "os.path.dirname", "os.path.abspath", "<return>"]),
+  ("_serialize_point", ["_._serialize_to_list", "_.pop", "<return>"]),
+  ("_swap_temp_with_primary", ["<if>", "self._temp_handle.flush", "os.fsync", "self._temp_handle.fileno", "self._handle.close", "os.replace", "open", "<end>", "<return>"]),
+  ("_write", ["_.seek", "_.truncate", "<if>", "csv.writer", "_.writerows", "_.flush", "os.fsync", "_.fileno", "_.truncate", "<end>", "<return>"])]
+
+/-- storages.MemoryStorage: function ↦ its calls in the order they are written, with control-structure markers -/
+def order_storages_MemoryStorage : List (String × List String) := [
+  ("__init__", ["super().__init__", "super"]),
+  ("__iter__", ["<for>", "<end>"]),
+  ("__len__", ["len", "<return>"]),
+  ("append", ["<for>", "<if>", "self._temp_memory.append", "<else>", "self._memory.append", "<end>", "<end>", "<return>"]),
+  ("read", ["super().read", "super", "<return>"]),
+  ("reset", ["self._write", "<return>"]),
+  ("_cleanup_temp_storage", ["<return>"]),
+  ("_deserialize_measurement", ["<return>"]),
+  ("_deserialize_storage_item", ["<return>"]),
+  ("_deserialize_timestamp", ["<if>", "<raise>", "<end>", "<return>"]),
+  ("_init_temp_storage", []),
+  ("_serialize_point", ["<return>"]),
+  ("_swap_temp_with_primary", ["<return>"]),
+  ("_write", ["<return>"])]
+
 /-- index (module-level functions): function ↦ what it calls, catches, raises -/
 def calls_index_toplevel : List (String × List String) := [
 ]
